@@ -80,6 +80,22 @@ impl Prop for C07 {
             super::add_warmup(&mut rng, &mut replicas[0], &[]);
         }
         super::decorate_role(&mut rng, &mut replicas[0]);
+        if rng.pct(25) && replicas[0].steps.len() > 1 {
+            // same-kind documents parsed one after the other into fresh trees, each rendered
+            replicas[0].role = format!("restarting-{}", replicas[0].role);
+            if rng.pct(60) {
+                // ... that share their root element
+                let first = replicas[0].steps[0].clone();
+                for st in replicas[0].steps.iter_mut().skip(1) {
+                    if let (Input::Raw(a), Input::Raw(b)) = (&first.input, &mut st.input) {
+                        let mut v = a.clone();
+                        let other = b.clone();
+                        crate::mutate::mutate_once(&mut rng, &mut v, &other);
+                        *b = v;
+                    }
+                }
+            }
+        }
         Scenario::Session(Session { docs: vec![], alts: vec![], replicas, opts })
     }
     fn exec(&self, sc: &Scenario, ctr: &mut Ctr) -> Result<Exec, String> {
